@@ -10,6 +10,7 @@ import (
 	"strings"
 	"sync"
 	"sync/atomic"
+	"time"
 
 	"github.com/BlackVectorOps/semantic_firewall/v3/pkg/analysis/topology"
 	"github.com/BlackVectorOps/semantic_firewall/v3/pkg/detection"
@@ -67,8 +68,9 @@ func suiteConcurrent(c *Ctx) error {
 		tA.EntropyScore = 3
 		tA.FuzzyHash = topology.GenerateFuzzyHash(tA)
 		tB := cloneTopo(tA)
-		tB.InstrCount += 3 // different exact hash, same fuzzy bucket
-		tB.CallSignatures = map[string]int{"net.Dial": 1, "os.Exec": 1}
+		tB.InstrCount += 3 // different exact hash, same fuzzy bucket, SAME calls: the record of X@B still
+		// scores above the threshold against the probe of X@A, so an index entry of one version
+		// paired with the record of the other would surface as an alert no version can produce
 		tB.FuzzyHash = topology.GenerateFuzzyHash(tB)
 		tC := cloneTopo(tA)
 		tC.BlockCount = tA.BlockCount*4 + 9 // different fuzzy bucket
@@ -265,6 +267,82 @@ func suiteConcurrent(c *Ctx) error {
 		}
 		if round == 0 {
 			c.Sample(map[string]interface{}{"writer_ops": len(ops), "readers": nReaders, "observations": len(obs)})
+		}
+	}
+
+	// ---- version flips against exact scans: one ID flips between two versions with DIFFERENT topology
+	// hashes but the same profile; in every committed state the store holds exactly one of them, so
+	// an exact scan with the probe of version V returns an alert named V or nothing.  An index entry
+	// of one version paired with the record of the other would name the wrong version. ----
+	{
+		rr := r.Fork()
+		tA := genTopo(rr)
+		tA.CallSignatures = map[string]int{"net.Dial": 1}
+		tA.EntropyScore = 3
+		tA.FuzzyHash = topology.GenerateFuzzyHash(tA)
+		tB := cloneTopo(tA)
+		tB.InstrCount += 2
+		tB.FuzzyHash = topology.GenerateFuzzyHash(tB)
+		sA := detection.IndexFunction(tA, "alpha", "", "HIGH", "m")
+		sB := detection.IndexFunction(tB, "beta", "", "HIGH", "m")
+		sA.ID, sB.ID = "FLIP", "FLIP"
+		dir := filepath.Join(c.Work, "conc-flip")
+		ps, err := pebbledb.NewPebbleScanner(dir, pebbledb.PebbleScannerOptions{MatchThreshold: 0.5, EntropyTolerance: 0.5})
+		if err != nil {
+			return err
+		}
+		budget := 4 * time.Second
+		if c.Tier == "thorough" {
+			budget = 40 * time.Second
+		}
+		stop := make(chan struct{})
+		var wg sync.WaitGroup
+		var scans, flips atomic.Int64
+		var badMu sync.Mutex
+		var bad []string
+		for g := 0; g < runtime.GOMAXPROCS(0); g++ {
+			wg.Add(1)
+			g := g
+			go func() {
+				defer wg.Done()
+				for {
+					select {
+					case <-stop:
+						return
+					default:
+					}
+					probe, want := tA, "alpha"
+					if g%2 == 1 {
+						probe, want = tB, "beta"
+					}
+					a, err := ps.ScanTopologyExact(probe, "f")
+					scans.Add(1)
+					if err == nil && a != nil && a.SignatureName != want {
+						badMu.Lock()
+						if len(bad) < 5 {
+							bad = append(bad, fmt.Sprintf("probe of version %s answered by signature %q (confidence %.3f)", want, a.SignatureName, a.Confidence))
+						}
+						badMu.Unlock()
+					}
+				}
+			}()
+		}
+		deadline := time.Now().Add(budget)
+		for time.Now().Before(deadline) {
+			ps.AddSignature(&sA)
+			ps.AddSignature(&sB)
+			flips.Add(2)
+		}
+		close(stop)
+		wg.Wait()
+		ps.Close()
+		c.Res.Evaluations += int(scans.Load())
+		c.Res.Nontrivial += int(flips.Load())
+		c.Count("flip_round_exact_scans")
+		c.Sample(map[string]interface{}{"flip_round": map[string]int64{"exact_scans": scans.Load(), "version_flips": flips.Load()}})
+		if len(bad) > 0 {
+			c.Violate("C11", "C11/exact-scan-mixes-versions", "ScanTopologyExact paired the index entry of one version with the record of another: "+bad[0],
+				map[string]interface{}{"observations": bad, "exact_scans": scans.Load(), "version_flips": flips.Load(), "how": "one writer alternates AddSignature(FLIP@alpha) / AddSignature(FLIP@beta) (different topology hash, same profile); readers call ScanTopologyExact with the alpha and the beta probe"})
 		}
 	}
 
